@@ -56,7 +56,7 @@ Definition holds_lev (c : lcase) : bool :=
   match l_lev c with
   | ORaise _ => true                  (* levinson_durbin's own errors belong to C10 *)
   | OOk (A, e) =>
-      let p := match l_order c with Some p => p | None => length (l_r c) - 1 end in
+      let p := match l_order c with Some p => p | None => (List.length (l_r c) - 1)%nat end in
       match durbin (l_r c) p, l_pc c with
       | Some (_, _, sks), OOk (ks, err) =>
           let want := dropz sks in    (* k_q ... k_1, q the highest non-zero one *)
